@@ -162,6 +162,17 @@ theorem change_lost {env : Env} {reps : List Replica} {s : Slot} :
         · intro h; cases h.2.2
     · simp [hw]
 
+theorem mem_trashes {r : Result} {s : Slot} {t : Int} : (s, t) ∈ r.trashes ↔ (s, Change.trash t) ∈ r.changes := by
+  unfold Result.trashes
+  simp only [List.mem_filterMap]
+  constructor
+  · rintro ⟨⟨s', ch⟩, hp, hm⟩
+    cases ch <;> simp at hm
+    obtain ⟨rfl, rfl⟩ := hm
+    exact hp
+  · intro h
+    exact ⟨(s, .trash t), h, rfl⟩
+
 /-! ### unsafeToDelete only grows -/
 
 theorem protectStep_utd (d : Nat) (s : Slot) (st : PassSt) : ∀ t ∈ st.utd, t ∈ (protectStep d s st).utd := by
